@@ -131,7 +131,12 @@ def run(ctx):
                           "the read guard is dropped only after resolve().await completed",
                           "the read guard can be dropped/moved before resolve() finished (%s)" % [f.loc(d) for d in early], f.loc(cb))
 
-    # ---------------------------------------------------------------- C19.6
+    loader_rules(ctx, "C19.6")
+
+
+def loader_rules(ctx, rule):
+    """all-or-nothing loading (shared by C19.6, C12.6, C17.4)."""
+    prog = ctx.prog
     lf = prog.body_of(LOAD)
     lr = A.Resolver(lf)
     lc = A.Conds(lf, lr)
@@ -145,12 +150,12 @@ def run(ctx):
         vals = [A.peel(lr._def_expr(d, 0)) for d in ds]
         if all(v[0] == "const" for v in vals):
             flags.append((l, ds, vals))
-    ctx.floor("C19.6", "failure flag candidates", len(flags), 1, exact=True)
+    ctx.floor(rule, "failure flag candidates", len(flags), 1, exact=True)
     rets = A.returns(lf)
     for l, ds, vals in flags:
         init = [d for d, v in zip(ds, vals) if v[2] is False or v[2] == 0]
         sets = [d for d, v in zip(ds, vals) if v[2] is True or v[2] == 1]
-        ctx.check(len(init) == 1 and all(lf.dominates(init[0][0], d[0]) for d in sets), "C19.6", "loader:flag-never-cleared",
+        ctx.check(len(init) == 1 and all(lf.dominates(init[0][0], d[0]) for d in sets), rule, "loader:flag-never-cleared",
                   "flag initialised false once, only ever set true afterwards", "the failure flag is reset to false somewhere", lf.loc(init[0][0]) if init else lf.loc())
         set_blocks = [d[0] for d in sets]
         # Err arms of every fallible load step
@@ -166,13 +171,13 @@ def run(ctx):
                         esc = [rb for rb in rets if rb in lf.reachable(s, removed_blocks=set_blocks)]
                         what = A.calls_in(fc[2], lambda n: n.startswith("resolved::fs::"))[0][1]
                         inner = "(Ok(Err))" if "<Ok>" in (A.path_str(fc[2]) or "") or "as Ok" in A.show(fc[2]) else "(Err)"
-                        ctx.check(not esc, "C19.6", "loader:err-arm:%s%s#%d" % (A.short(what), inner, arms),
+                        ctx.check(not esc, rule, "loader:err-arm:%s%s#%d" % (A.short(what), inner, arms),
                                   "the Err arm cannot reach the return without setting the flag",
                                   "an error of %s does not set the failure flag" % A.short(what), lf.loc(s))
-        ctx.floor("C19.6", "Err arms of load steps", arms, 6)
+        ctx.floor(rule, "Err arms of load steps", arms, 6)
         # the result
         somes = [(b, i) for b, i, st in A.aggregates(lf, "std::option::Option", "Some") if "Zones" in lf.local_ty(st["dst"]["l"])]
-        ctx.floor("C19.6", "Some(zones) results", len(somes), 1, exact=True)
+        ctx.floor(rule, "Some(zones) results", len(somes), 1, exact=True)
         for b, i in somes:
             edges = []
             for sb in lf.live_blocks():
@@ -189,11 +194,11 @@ def run(ctx):
                             if v == 0:
                                 edges.append((sb, tg))
             ok = bool(edges) and b not in lf.reachable(0, removed_edges=edges)
-            ctx.check(ok, "C19.6", "loader:some-only-if-no-error", "Some(zones) only behind `flag == false`",
+            ctx.check(ok, rule, "loader:some-only-if-no-error", "Some(zones) only behind `flag == false`",
                       "Some(zones) is reachable with the failure flag set", lf.loc(b, i))
     # the loader cannot touch the lock
     fam = prog.family(LOAD)
     touches = [f.key for f in fam for b, t in f.calls() if "RwLock" in (t.get("inst") or "")]
     params = prog.fn(LOAD).locals[1:5]
-    ctx.check(not touches and all("PathBuf" in p["ty"] for p in params), "C19.6", "loader:isolated",
+    ctx.check(not touches and all("PathBuf" in p["ty"] for p in params), rule, "loader:isolated",
               "load_zone_configuration takes four path slices and never names the lock", "the loader touches server state: %s" % touches)
